@@ -129,6 +129,8 @@ type Exec struct {
 	replayOff  bool
 	deferIdx   map[*ast.DeferStmt]int
 	inlineStack []*inlineFrame
+	pendingKeyVar *types.Var
+	pendingIndVar *types.Var
 	identAlias  map[string]*types.Var // contract identifier -> local it was matched to (renamed local)
 	discardCall *ast.CallExpr // the call of the expression statement being executed (its results are discarded)
 	closureVar map[types.Object]*FuncInfo
@@ -1965,6 +1967,9 @@ func (x *Exec) assignedLocals(n ast.Node) []*types.Var {
 }
 
 type loopCtx struct {
+	keyVar *types.Var // key variable of a range loop: reads as $idx at the loop head (invariants written for the index-loop form)
+	indVarMonotone bool
+	indVar *types.Var // canonical three-clause loop: its induction variable is what $idx denotes
 	ord    string
 	spec   *LoopSpec
 	pos    token.Pos
@@ -2025,7 +2030,31 @@ func (x *Exec) runLoop(s *State, entry *State, node ast.Node, bodyNode ast.Node,
 
 	ord := x.enterLoopNode(node)
 	defer x.leaveLoopNode()
-	lc := &loopCtx{ord: ord, pos: bodyNode.Pos(), pseudo: map[string]*Term{}}
+	lc := &loopCtx{ord: ord, pos: bodyNode.Pos(), pseudo: map[string]*Term{}, indVar: x.pendingIndVar, keyVar: x.pendingKeyVar}
+	x.pendingIndVar = nil
+	x.pendingKeyVar = nil
+	if lc.indVar != nil {
+		lc.indVarMonotone = true
+		ast.Inspect(bodyNode, func(n ast.Node) bool {
+			switch t := n.(type) {
+			case *ast.AssignStmt:
+				for _, l := range t.Lhs {
+					if id, ok := l.(*ast.Ident); ok && (x.info.Uses[id] == lc.indVar || x.info.Defs[id] == lc.indVar) {
+						lc.indVarMonotone = false
+					}
+				}
+			case *ast.IncDecStmt:
+				if id, ok := t.X.(*ast.Ident); ok && x.info.Uses[id] == lc.indVar {
+					lc.indVarMonotone = false
+				}
+			case *ast.UnaryExpr:
+				if id, ok := t.X.(*ast.Ident); ok && t.Op == token.AND && x.info.Uses[id] == lc.indVar {
+					lc.indVarMonotone = false
+				}
+			}
+			return true
+		})
+	}
 	if x.c.Loops != nil {
 		lc.spec = x.c.Loops[ord]
 	}
@@ -2049,6 +2078,11 @@ func (x *Exec) runLoop(s *State, entry *State, node ast.Node, bodyNode ast.Node,
 	x.aliasHook = aliases
 	defer func() { x.aliasHook = origCheck }()
 	// 1. invariant holds on entry
+	if lc.keyVar != nil {
+		if v, ok := s.pseudo["$idx"]; ok {
+			s.vars[lc.keyVar] = v
+		}
+	}
 	x.checkInvariants(s, entry, lc, "init")
 
 	locals := x.assignedLocals(node)
@@ -2144,6 +2178,19 @@ func (x *Exec) runLoop(s *State, entry *State, node ast.Node, bodyNode ast.Node,
 		if post != nil {
 			post(e)
 		}
+		if lc.indVar != nil {
+			if cur, ok := e.vars[lc.indVar]; ok {
+				e.pseudo["$idx"] = cur
+				if k := "$idx" + ordSuffix; true {
+					e.pseudo[k] = cur
+				}
+			}
+		}
+		if lc.keyVar != nil {
+			if v, ok := e.pseudo["$idx"]; ok {
+				e.vars[lc.keyVar] = v
+			}
+		}
 		x.checkInvariants(e, entry, lc, "pres")
 	}
 	res := outcomes{}
@@ -2217,6 +2264,22 @@ func (x *Exec) loopHead(s *State, entry *State, lc *loopCtx, locals []*types.Var
 	for k, v := range pseudoInit {
 		h.pseudo[k] = x.fresh("l"+k, v.Sort)
 	}
+	if lc.indVar != nil {
+		if cur, ok := h.vars[lc.indVar]; ok {
+			h.pseudo["$idx"] = cur
+			if lc.indVarMonotone {
+				h.assume(Le(Num(0), cur)) // starts at 0 and is only incremented by the post statement
+			}
+		}
+		if r, ok := pseudoInit["$range"]; ok {
+			h.pseudo["$range"] = r // the ranged expression is not modified by the loops of this code base
+		}
+	}
+	if lc.keyVar != nil {
+		if v, ok := h.pseudo["$idx"]; ok {
+			h.vars[lc.keyVar] = v
+		}
+	}
 	x.assumeInvariants(h, entry, lc)
 	return h
 }
@@ -2238,7 +2301,38 @@ func (x *Exec) execFor(s *State, st *ast.ForStmt, entry *State) outcomes {
 			x.execStmt(e, st.Post, entry)
 		}
 	}
-	return x.runLoop(s, entry, st, st.Body, nil, cond, nil, st.Body.List, post, nil)
+	// canonical counting loop `for i := 0; i < E; i++`: $idx denotes i (and $range the slice X when E is len(X)), so that
+	// invariants written for a range loop still apply after the loop was rewritten in this form, and vice versa
+	var pseudoInit map[string]*Term
+	if as, ok := st.Init.(*ast.AssignStmt); ok && as.Tok == token.DEFINE && len(as.Lhs) == 1 && len(as.Rhs) == 1 {
+		if id, ok := as.Lhs[0].(*ast.Ident); ok {
+			if lit, ok := as.Rhs[0].(*ast.BasicLit); ok && lit.Value == "0" {
+				if inc, ok := st.Post.(*ast.IncDecStmt); ok && inc.Tok == token.INC {
+					if pid, ok := inc.X.(*ast.Ident); ok && pid.Name == id.Name {
+						if be, ok := st.Cond.(*ast.BinaryExpr); ok && be.Op == token.LSS {
+							if cid, ok := be.X.(*ast.Ident); ok && cid.Name == id.Name {
+								if iv, ok := x.info.Defs[id].(*types.Var); ok {
+									pseudoInit = map[string]*Term{"$idx": Num(0)}
+									x.pendingIndVar = iv
+									if call, ok := be.Y.(*ast.CallExpr); ok && len(call.Args) == 1 {
+										if fn, ok := call.Fun.(*ast.Ident); ok && fn.Name == "len" {
+											switch call.Args[0].(type) {
+											case *ast.Ident, *ast.SelectorExpr:
+												if rt := x.eval(s, call.Args[0]); isSliceSort(rt.Sort) {
+													pseudoInit["$range"] = rt
+												}
+											}
+										}
+									}
+								}
+							}
+						}
+					}
+				}
+			}
+		}
+	}
+	return x.runLoop(s, entry, st, st.Body, pseudoInit, cond, nil, st.Body.List, post, nil)
 }
 
 func (x *Exec) execRange(s *State, st *ast.RangeStmt, entry *State) outcomes {
@@ -2260,11 +2354,30 @@ func (x *Exec) execRange(s *State, st *ast.RangeStmt, entry *State) outcomes {
 			x.assignTo(b, id, val)
 		}
 	}
+	if id, ok := st.Key.(*ast.Ident); ok && id.Name != "_" && st.Tok == token.DEFINE {
+		if _, isSlice := ct.Underlying().(*types.Slice); isSlice {
+			if v, ok := x.info.Defs[id].(*types.Var); ok {
+				x.pendingKeyVar = v
+			}
+		}
+	}
 	switch ut := ct.Underlying().(type) {
 	case *types.Slice:
 		sl := x.eval(s, st.X)
 		if sl.Sort == SStr {
-			x.fail(st, "range over byte slice")
+			// range over a byte slice (modelled by its content): index and byte
+			cond := func(h *State) *Term { return Lt(h.pseudo["$idx"], mk("s.len", SInt, sl)) }
+			enter := func(b *State) {
+				i := b.pseudo["$idx"]
+				b.assume(Le(Num(0), i))
+				setVar(b, st.Key, i)
+				if st.Value != nil {
+					setVar(b, st.Value, withType(mk("s.byte", SInt, sl, i), ut.Elem()))
+				}
+			}
+			post := func(e *State) { e.pseudo["$idx"] = Add(e.pseudo["$idx"], Num(1)) }
+			s.pseudo["$len"] = mk("s.len", SInt, sl)
+			return x.runLoop(s, entry, st, st.Body, map[string]*Term{"$idx": Num(0)}, cond, enter, st.Body.List, post, nil)
 		}
 		idx0 := Num(0)
 		cond := func(h *State) *Term { return Lt(h.pseudo["$idx"], sliceLen(sl)) }
